@@ -334,9 +334,15 @@ def check_bin(ctx, payload, only=None):
     """*only*: restrict to the operation of that name (used while shrinking)."""
     opset, m_terms, n_terms = payload
     sym = is_sym_terms(m_terms, n_terms)
-    full = opset == "all"
+    alias = opset == "self"             # the very same object on both sides of every operator
+    full = opset in ("all", "self")
     fails = []
-    a, b = build(ctx, m_terms), build(ctx, n_terms)
+    a = build(ctx, m_terms)
+    if alias:
+        assert m_terms == n_terms
+        b = a
+    else:
+        b = build(ctx, n_terms)
     rm, rn = refmv(m_terms, sym), refmv(n_terms, sym)
     ref = ctx.ref
     n = 0
@@ -383,7 +389,14 @@ def check_bin(ctx, payload, only=None):
                     bad = compare_mv(ctx, sym, run(f_), exp)
                     if bad:
                         fails.append((f"{nm}:{side}:{bad[0]}", bad[1]))
-    if opset in ("all", "prod+add"):
+    if alias and (not only or only == "self-assoc"):
+        exp = ref.mul3(rm, rm, rm)
+        for nm, f_ in (("left", lambda: (a * a) * a), ("right", lambda: a * (a * a))):
+            n += 1
+            bad = compare_mv(ctx, sym, run(f_), exp, True)
+            if bad:
+                fails.append((f"self-assoc/{nm}:{bad[0]}", bad[1]))
+    if opset in ("all", "self", "prod+add"):
         for name, fn, exp in (("+", operator.add, ref.add(rm, rn)),
                               ("-", operator.sub, ref.sub(rm, rn))):
             if only and name != only:
@@ -724,6 +737,8 @@ def check_case(case, only=None):
 def _operands(case):
     """-> (list of operand term-tuples, rebuild function) for the operand-shaped payloads."""
     kind, dim, metric, dtype, payload = case
+    if kind == "bin" and payload[0] == "self":
+        return [payload[1]], lambda ops: (kind, dim, metric, dtype, ("self", ops[0], ops[0]))
     if kind == "bin":
         return list(payload[1:]), lambda ops: (kind, dim, metric, dtype, (payload[0], *ops))
     if kind in ("tri", "una"):
@@ -810,6 +825,8 @@ def candidates(case):
     if ops is not None:
         for oi, terms in enumerate(ops):
             min_terms = 1 if kind in ("tri", "una", "con", "his") or payload[0] != "all" else 0
+            if kind == "bin" and payload[0] == "self":
+                min_terms = 1
             if len(terms) > min_terms:
                 for ti in range(len(terms)):
                     new = list(ops)
@@ -900,7 +917,9 @@ def render(case):
     runs = [(g, len(list(grp))) for g, grp in itertools.groupby(metric)]
     mtxt = ",".join(f"{g}^{k}" if k > 3 else ",".join([str(g)] * k) for g, k in runs)
     head = f"dim={dim} metric={mtxt or '-'} {dtype}"
-    if kind == "bin":
+    if kind == "bin" and payload[0] == "self":
+        body = f"[self] A . A, the same object, A = ({show_terms(payload[1])})"
+    elif kind == "bin":
         body = f"[{payload[0]}] ({show_terms(payload[1])}) . ({show_terms(payload[2])})"
     elif kind == "his":
         body = (f"[{payload[0]} first] ({show_terms(payload[1])})"
@@ -970,15 +989,19 @@ class C18(Check):
         "like a freshly built equal multivector and like the result from a never-used twin, and "
         "the operand must be unchanged: every blade x 5 coefficients, every two-blade sum x 3 "
         "patterns, every blade pair, d<=2 all metrics and 8 metrics of d=3 -> d<=3 all metrics, 8 "
-        "of d=4; [highdim] dimensions 31, 32, 33, 34, 64, 65 (word boundaries of the bitmaps), 2 "
+        "of d=4; [self] operand aliasing: A op A with THE SAME OBJECT on both sides for every "
+        "product, +, -, ==, !=, hash, and (A*A)*A = A*(A*A) = reference, A = every basis blade x "
+        "5 coefficients and every sum of two basis blades x 6 coefficient pairs (and, inside "
+        "[full], every multivector over {0,1,-1} in d<=2): d<=3 all metrics and 8 metrics of "
+        "d=4, object dtype -> d<=4 all metrics, 8 of d=5, 3 dtypes; [highdim] dimensions 31, 32, 33, 34, 64, 65 (word boundaries of the bitmaps), 2 "
         "metrics: all blades of <= 3 indices from {0, 31, 32, 33, d-2, d-1} (+ the whole pool) as "
         "pairs (2 -> 3 coefficient pairs), triples (two <= 2-index blades, then a scalar or vector) "
         "and the unary family. "
         "A case is non-trivial when "
         "the reference geometric product of its operands is non-zero (pairs, lin, full, triples) "
-        "resp. always (unary, construct, axioms, history); distinct = distinct (family, dimension, metric, "
+        "resp. always (unary, construct, axioms, history; self: non-zero A*A); distinct = distinct (family, dimension, metric, "
         "operand blades) -- coefficient patterns and the metric dtype are NOT counted as distinct, "
-        "except in full/unary/construct/history where the coefficients are part of the operand.")
+        "except in full/unary/construct/history/self where the coefficients are part of the operand.")
     assumptions = [
         "oracle: vf/c18_ref.py -- product of basis blades on index lists (concatenate, bubble "
         "sort with sign flips, contract equal neighbours with the metric entry), extended "
@@ -1035,6 +1058,10 @@ class C18(Check):
             if q:       # two dtypes up to dimension 1, object dtype in dimension 2
                 return space_list((0, 1), QUICK_DTYPES_2, [(2, metrics(2), QUICK_DTYPES_1)])
             return space_list(tuple(range(FULL_MAX_DIM + 1)), QUICK_DTYPES_2)
+        if fam == "self":
+            if q:
+                return space_list(dims, QUICK_DTYPES_1, [(4, REDUCED_METRICS_4, QUICK_DTYPES_1)])
+            return space_list(big, DTYPES, [red5])
         if fam == "history":
             if q:
                 return space_list((0, 1, 2), QUICK_DTYPES_2, [(3, REDUCED_METRICS_3, QUICK_DTYPES_2)])
@@ -1110,6 +1137,7 @@ class C18(Check):
             ("unary", rows_blade("unary")),
             ("construct", rows_stripes("construct")),
             ("history", rows_blade("history")),
+            ("self", rows_blade("self")),
             ("highdim", rows_high("highdim")),
         ]
         if tier == "thorough":
@@ -1184,6 +1212,8 @@ class C18(Check):
                 # the second operand lists its terms in the opposite order
                 mv_n = tuple(reversed(self._full_mv(blades, coeffs, ni)))
                 yield mk("bin", ("all", mv_m, mv_n))
+                if ni == ai and mv_m:
+                    yield mk("bin", ("self", mv_m, mv_m))
         elif family == "unary":
             a = blades[ai]
             for c in UNARY_COEFFS:
@@ -1191,6 +1221,14 @@ class C18(Check):
             for b in blades[ai + 1:]:
                 for c1, c2 in UNARY2_COEFFS:
                     yield mk("una", (((a, c1), (b, c2)),))
+        elif family == "self":
+            a = blades[ai]
+            for c in UNARY_COEFFS:
+                yield mk("bin", ("self", ((a, c),), ((a, c),)))
+            for b in blades[ai + 1:]:
+                for c1, c2 in UNARY2_COEFFS:
+                    t = ((a, c1), (b, c2))
+                    yield mk("bin", ("self", t, t))
         elif family == "history":
             a = blades[ai]
             for prior in HISTORY_PRIORS:
@@ -1268,7 +1306,8 @@ class C18(Check):
             cases = [item[1]]
         else:
             cases = self.expand(family, item, tier)
-        with_coeffs = family in ("full", "full-d3", "unary", "construct", "axioms", "history")
+        with_coeffs = family in ("full", "full-d3", "unary", "construct", "axioms", "history",
+                                 "self")
         first = None
         for case in cases:
             if first is None:
